@@ -119,9 +119,15 @@ impl Key {
         self.magic == MAGIC
     }
 }
+/// fault injection: when positive, the n-th clone of a tracked key from now on panics (0 = off)
+pub static CLONE_FUSE: std::sync::atomic::AtomicI64 = std::sync::atomic::AtomicI64::new(0);
+
 impl Clone for Key {
     fn clone(&self) -> Key {
         assert!(self.alive(), "clone of a dead key");
+        if self.obj != u64::MAX && CLONE_FUSE.load(Ordering::SeqCst) > 0 && CLONE_FUSE.fetch_sub(1, Ordering::SeqCst) == 1 {
+            panic!("injected panic in Clone for Key");
+        }
         if self.obj == u64::MAX {
             return Key::probe(self.id);
         }
